@@ -22,6 +22,15 @@ def AVERAGE(
     return sum(numbers) / len(numbers)
 
 
+def _count_arguments(values):
+    # The limit is on the number of arguments; a range is one argument,
+    # however many cells it has.
+    return sum(
+        1 if isinstance(value, func_xltypes.Array) else xl.length([value])
+        for value in values
+    )
+
+
 @xl.register()
 @xl.validate_args
 def COUNT(*values) -> func_xltypes.Number:
@@ -31,14 +40,15 @@ def COUNT(*values) -> func_xltypes.Number:
     https://support.office.com/en-us/article/
         count-function-a59cd7fc-b623-4d93-87a4-d23bf411294c
     """
+    num_args = _count_arguments(values)
     values = xl.flatten(values)
     if not len(values) or values[0] is None:
         raise xlerrors.ValueExcelError('value1 is required')
 
-    if len(values) > 255:
+    if num_args > 255:
         raise xlerrors.ValueExcelError(
             f"Can only have up to 255 supplimentary arguments. "
-            f"Provided: {len(values)}")
+            f"Provided: {num_args}")
 
     return len(list(filter(func_xltypes.Number.is_type, values)))
 
@@ -51,14 +61,15 @@ def COUNTA(*values):
     https://support.office.com/en-us/article/
         counta-function-7dc98875-d5c1-46f1-9a82-53f3219e2509
     """
+    num_args = _count_arguments(values)
     values = xl.flatten(values)
     if not len(values) or values[0] is None:
         raise xlerrors.NullExcelError('value1 is required')
 
-    if len(values) > 256:
+    if num_args > 256:
         raise xlerrors.ValueExcelError(
             f"Can only have up to 256 arguments. "
-            f"Provided: {len(values)}")
+            f"Provided: {num_args}")
 
     cells = list(filter(lambda x: not func_xltypes.Blank.is_blank(x), values))
     return len(cells)
